@@ -3,7 +3,7 @@
 import json, subprocess
 PROP = {
 "GraphQL schema generation hashes":"C19","GraphQL flattened field context leaks":"C19",
-"serialization of a discriminated union of TypedDict":"C04","dependent_required ignores fields skipped":"C03,C17","FieldsConstructor counts all":"C01,C08","coerce() turns unhashable":"C03,C14","Optional[Literal/Enum] schema":"C06",
+"serialization of a discriminated union of TypedDict":"C04","dependent_required ignores fields skipped":"C03","FieldsConstructor counts all":"C08","coerce() turns unhashable":"C03,C14","Optional[Literal/Enum] schema":"C06",
 "FrozenSetMethod leaks":"C03","default values of GraphQL":"C11,C19","concurrent recursion":"C20","field with Undefined default":"C04,C07",
 "check_type + fall_back_on_any":"C08","serialized methods omitted":"C07","prefixItems is kept":"C18","DRAFT_2019_09 declares":"C17,C18",
 "Union[float":"C13","serialized discriminator key":"C11","dependentRequired of JSON":"C11","resolver argument errors":"C11,C19","GraphQL output object":"C11,C19",
